@@ -123,21 +123,29 @@ def rule_exit_status(ctx, R="C03.2"):
             w = f
     if w is None:
         return ctx.missing(R, "StdoutWriter::write_reports")
-    env = let_env(w["body"])
-    flt = env.get("reports")
-    okf = flt is not None and render(strip(flt)).replace(" ", "") == "self.filter(reports)"
-    ctx.check(R, "StdoutWriter::write_reports/filtered-collection", okf, "let reports = %s" % (render(flt) if flt else "?"), site(WR, w))
+    import sgrep
+    envl = sgrep.lets(w["body"])
+    pv = sgrep.params(w)
+    fr = [k for k, v in envl.items() if pv and sgrep.has(v, "self.filter(__r)", None, {"__r": pv[0]}) and render(strip(v)).replace(" ", "").startswith("self.filter(")]
+    ctx.check(R, "StdoutWriter::write_reports/filtered-collection", len(fr) == 1, "the reports that are displayed are `self.filter(<the offered reports>)`: %s" % fr, site(WR, w))
+    FR = fr[0] if fr else "reports"
     incs = [n for n in walk(w["body"]) if n["k"] == "Binary" and n["op"] == "+=" and render(n["l"]) == "self.written"]
-    ctx.check(R, "StdoutWriter::write_reports/counter-grows-by-displayed", len(incs) == 1 and render(strip(incs[0]["r"])) == "reports.len()" and not (conditions_to(w["body"], incs[0]) or []), "self.written += %s" % (render(incs[0]["r"]) if incs else "?"), site(WR, w))
+    ctx.check(R, "StdoutWriter::write_reports/counter-grows-by-displayed", len(incs) == 1 and render(strip(incs[0]["r"])) == FR + ".len()" and not (conditions_to(w["body"], incs[0]) or []), "self.written += %s" % (render(incs[0]["r"]) if incs else "?"), site(WR, w))
     t = block_tail(w["body"])
-    ctx.check(R, "StdoutWriter::write_reports/returns-displayed-count", t is not None and render(strip(t)) == "reports.len()", "returns %s" % render(t), site(WR, w))
-    # diagnostics: one per filtered report, all emitted
-    loops = [n for n in walk(w["body"]) if n["k"] == "For"]
-    build = [l for l in loops if render(strip(l["iter"])).replace(" ", "") in ("reports", "reports.iter()")]
-    emit = [l for l in loops if any(True for _ in calls(l["body"], "term::emit"))]
-    okb = len(build) == 1 and len(list(method_calls(build[0]["body"], "push"))) == 1 and not [n for n in walk(build[0]["body"]) if n["k"] in ("If", "Match", "Continue", "Break")]
-    oke = len(emit) == 1 and render(strip(emit[0]["iter"])).replace(" ", "") in ("diagnostics", "diagnostics.iter()") and not [n for n in walk(emit[0]["body"]) if n["k"] in ("If", "Match", "Continue", "Break")]
-    ctx.check(R, "StdoutWriter::write_reports/one-diagnostic-per-report", okb, "the diagnostics are built by one unconditional push per filtered report", site(WR, w))
+    ctx.check(R, "StdoutWriter::write_reports/returns-displayed-count", t is not None and render(strip(t)) == FR + ".len()", "returns %s" % render(t), site(WR, w))
+    # diagnostics: one per filtered report (loop with one unconditional push, or a map/collect without filtering)
+    okb, how = sgrep.each_calls(w["body"], FR + ".iter()", "to_diagnostic", envl)
+    if not okb:
+        okb, how = sgrep.each_calls(w["body"], FR, "to_diagnostic", envl)
+    filt = [m["method"] for m in walk(w["body"]) if m["k"] == "MethodCall" and m["method"] in ("filter", "filter_map", "take", "skip", "take_while", "skip_while", "step_by", "dedup") and FR in render(m["recv"])]
+    ctx.check(R, "StdoutWriter::write_reports/one-diagnostic-per-report", okb and not filt, "%s; narrowing adaptors on the displayed collection: %s" % (how, filt), site(WR, w))
+    emits = list(calls(w["body"], "term::emit"))
+    oke = False
+    if len(emits) == 1:
+        cs = conditions_to(w["body"], emits[0]) or []
+        loops_ = [c for c in cs if c[0] == "loop"]
+        extra = [fact_str(c) for c in cs if c[0] not in ("loop", "closure")]
+        oke = len(loops_) == 1 and not extra and not any(x["k"] in ("Continue", "Break") for x in walk(w["body"]))
     ctx.check(R, "StdoutWriter::write_reports/every-diagnostic-emitted", oke, "term::emit runs once per diagnostic, unconditionally", site(WR, w))
     # reports_written returns the counter
     for q, f in fns_in_file(WR):
